@@ -40,4 +40,8 @@ META = dict(
     CASE_TIMEOUT={"quick": 90, "thorough": 180},
     SHIM=True,
     EXTRA_VARIANTS=["plain"],
+    # pymalloc serves every PyMem_Malloc / PyObject_Malloc request of <= 512 bytes from its own arenas: no ASan red zones,
+    # no 0xBE fill.  The extension module allocates its argument scratch arrays that way, so for this check (where the
+    # sanitizer is the deciding oracle) all Python allocations go to malloc; about 2x slower interpreter.
+    ENV={"PYTHONMALLOC": "malloc"},
 )
